@@ -87,14 +87,17 @@ def GenWf(spec: str, x: ty.Any = None, y: ty.Any = None):
             t = (OpT if sp.get("typed") else Op)(name=name, fail=nd.get("fail", ()))
             plain = {k: _wire(nd[k], nodes, wfin) for k in ("a", "b") if k in nd}
         split_vals = {k: _wire(v, nodes, wfin) for k, v in nd.get("split_vals", {}).items()}
+        late = nd.get("late", [])
         for k, v in plain.items():
-            if k not in split_vals:
+            if k not in split_vals and k not in late:
                 setattr(t, k, v)
         if "split" in nd:
             t = t.split(from_json(nd["split"]), **split_vals)
         if "combine" in nd:
             t = t.combine(nd["combine"])
         out = workflow.add(t, name=name)
+        for k in late:  # connections made step by step after the node was added
+            setattr(workflow.this()[name].inputs, k, plain[k])
         if "wf" in nd:
             class _O:  # uniform `.out`
                 pass
